@@ -8,6 +8,14 @@ ALL = ["C%02d" % i for i in range(1, 21)]
 CLAIMED = {}
 NA = {}
 exec(open(os.path.join(V, "manifest_table.py")).read())
+# the bounds of the harnesses as they stand (harness/meta.json, also copied into every evidence
+# file) are appended to the level text, so that the claim names what is explored today
+META = json.load(open(os.path.join(V, "harness", "meta.json")))
+for pid, c in CLAIMED.items():
+    b = META.get(pid, {}).get("bounds", {})
+    o = META.get(pid, {}).get("outside_claim", [])
+    if b:
+        c["text"] = c["text"].rstrip() + " Harnesses and bounds as they stand now (widened over eight rounds of seeded changes, DESIGN.md §8.4): " + "; ".join("%s: %s" % (k, v) for k, v in b.items()) + "." + (" Outside the claim: " + "; ".join(o) + "." if o else "")
 checks = []
 for pid in ALL:
     if pid in CLAIMED:
